@@ -35,9 +35,10 @@ and `Ref.eval`/`Ref.runProgram` themselves:
                                   `obsOfVM (runText …) = obsOfRef (runProgram …)` and it is a value;
 * `compile_correct_on_F0c`      — `CompileCorrect` restricted to F0c, in its own vocabulary.
 
-* `segment_lemma_Fv`            — Stage C: the same for Fv = F0c + symbols + `def` + `set`, with the
-                                  simulation relation between VM scopes and reference frames;
-                                  values and errors;
+* `segment_lemma_Fv`            — Stages C/D: the same for Fv = F0c + symbols + `def` + `set` +
+                                  `newScope` + `letseq` + `let` (distinct names), with the
+                                  simulation relation between VM scopes / linear stack and
+                                  reference frames / static chain; values and errors;
 * `compile_correct_on_Fv`       — `CompileCorrect` restricted to Fv (values, errors, traces).
 
 `compile_correct_partial` (below) says what is proved of the semantic statement and names
@@ -411,15 +412,21 @@ example : ∃ code, VM.runText 141 demoF0c VM.initSt
 example : obsOfVM (VM.runText 141 demoF0c VM.initSt).1 = obsOfRef (Ref.runProgram 46 demoF0c Ref.initSt).1 :=
   (compile_correct_F0c demoF0c (by decide) 46 141 (by decide) (by decide)).1
 
-/-! ## Stage C — variables: symbols, `def`, `set` (fragment Fv ⊇ F0c)
+/-! ## Stages C and D — variables and scopes: symbols, `def`, `set`, `newScope`, `letseq`, `let`
+(fragment Fv ⊇ F0c)
+
+`Fv` = literals, symbol reference, `def`, `set`, non-empty `begin`, `cond`, `and`, `or`,
+non-empty `newScope`, `letseq`, and `let` with pairwise distinct names, nested arbitrarily.
+(`let` binds its names by popping, the last name first; the reference evaluator binds the first
+name first; with a repeated name the two differ — `(let [a 1 a 2] a)` is 1 on the VM and in the
+implementation, 2 in the reference evaluator — so such a `let` is outside the fragment.)
 
 Expressions now have effects (on the scopes) and can fail (unbound symbol, re-binding with a
 different type). The segment lemma carries the simulation relation `Sim.Rel` between VM state
 and reference state: scope table and frame table hold the same bindings index by index, the
 linear scope stack is the static chain of the current environment, heaps and traces agree. -/
 
-/-- **Segment lemma for Fv**, spelled out. `Fv` = literals, symbols, `def`, `set`, non-empty
-`begin`, `cond`, `and`, `or`, nested arbitrarily. From related states, the VM standing on the
+/-- **Segment lemma for Fv**, spelled out. From related states, the VM standing on the
 first instruction of the code of `e` (embedded anywhere in a compiled function):
 * reference value `v`, new state `rs'` ⇒ within `code.length` instructions the VM arrives just
   behind the code with exactly one more value `v` on the data stack, in the same function, and
@@ -491,6 +498,15 @@ def demoFv : List Expr :=
    .def_ "b" (.str "x"),
    .cond [(.sym "b", .set_ "c" (.sym "a"))] (.int 9)]
 
+/-- `(def a 1) (let [b a c 2] (letseq [d b d (newScope (set a c) d)] (cond d a 0)))`: scopes -/
+def demoFvLet : List Expr :=
+  [.def_ "a" (.int 1),
+   .let_ false [("b", .sym "a"), ("c", .int 2)]
+     [.let_ true [("d", .sym "b"), ("d", .newScope [.set_ "a" (.sym "c"), .sym "d"])]
+       [.cond [(.sym "d", .sym "a")] (.int 0)]]]
+
+example : FvList demoFvLet = true := by decide
+
 /-- `(def a 1) (begin (def a "s") 2)`: re-binding `a` with another type is an error -/
 def demoFvErr : List Expr := [.def_ "a" (.int 1), .begin_ [.def_ "a" (.str "s"), .int 2]]
 
@@ -517,6 +533,29 @@ theorem demoFv_ref : refClass (Ref.evalBegin 14 demoFv 0 { Ref.initSt with trace
 theorem demoFvErr_ref : refClass (Ref.evalBegin 6 demoFvErr 0 { Ref.initSt with trace := [] }) = some none := by
   simp [demoFvErr, Ref.evalBegin, Ref.eval, Ref.define, Ref.setVar, Ref.initSt, Ref.assocSet, Ref.globalNames,
     coreBuiltins, rebindOk, tyOf, intOfLit, refClass, List.lookup]
+
+/-- the scoped program: `a` is set to 2 from inside `newScope`, inside `letseq`, inside `let` -/
+theorem demoFvLet_ref :
+    refClass (Ref.evalBegin 12 demoFvLet 0 { Ref.initSt with trace := [] }) = some (some (intOfLit 2)) := by
+  have tr1 : truthy (intOfLit 1) = true := by decide
+  have tyi : ∀ (h : DataHeap) (k : Int), tyOf h (intOfLit k) = some Ty.int := fun _ _ => rfl
+  simp [demoFvLet, Ref.evalBegin, Ref.eval, Ref.evalCond, Ref.evalLetSeq, Ref.evalList, Ref.bindAll, Ref.newFrame,
+    Ref.define, Ref.setVar, Ref.lookup, Ref.lookupIn, Ref.initSt, Ref.assocSet, Ref.globalNames, coreBuiltins,
+    rebindOk, tyi, refClass, tr1, List.lookup]
+
+example : ∃ fuel' o, obsOfRef (Ref.runProgram 12 demoFvLet Ref.initSt).1 = some o
+    ∧ obsOfVM (VM.runText fuel' demoFvLet VM.initSt).1 = some o := by
+  have h := demoFvLet_ref
+  cases hres : Ref.evalBegin 12 demoFvLet 0 { Ref.initSt with trace := [] } with
+  | ok v rs' =>
+    have ho : obsOfRef (Ref.runProgram 12 demoFvLet Ref.initSt).1 = some (.ok (pr rs'.heap v) rs'.trace) := by
+      unfold Ref.runProgram; simp only [hres]; rfl
+    obtain ⟨f, hf⟩ := compile_correct_on_Fv demoFvLet (by decide) (by decide) 12 _ ho
+    exact ⟨f, _, ho, hf⟩
+  | err rs' => rw [hres] at h; simp [refClass] at h
+  | timeout => rw [hres] at h; simp [refClass] at h
+  | brk l rs' => rw [hres] at h; simp [refClass] at h
+  | cont l rs' => rw [hres] at h; simp [refClass] at h
 
 /-- both are instances of `compile_correct_on_Fv` with a real outcome on the reference side -/
 example : ∃ fuel' o, obsOfRef (Ref.runProgram 14 demoFv Ref.initSt).1 = some o
@@ -550,24 +589,25 @@ example : ∃ fuel' tr, obsOfRef (Ref.runProgram 6 demoFvErr Ref.initSt).1 = som
 /-! ## What is proved of `CompileCorrect`, and what is missing -/
 
 /-- **The part of `CompileCorrect` that is NOT proved**: programs with at least one
-top-level form outside Fv — i.e. using `let`/`letseq`/`newScope`, calls (builtin or user),
-array literals, `for`/`break`/`continue`, `fn`/`defn`, or an empty `begin`. Held by the 3-way
+top-level form outside Fv — i.e. using calls (builtin or user), array literals,
+`for`/`break`/`continue`, `fn`/`defn`, a `let` with a repeated name, or an empty
+`begin`/`newScope`. Held by the 3-way
 `eval` correspondence on every run, not by a theorem. -/
 def CompileCorrectOutsideFv : Prop := CompileCorrectOn (fun p => FvList p = false)
 
 /-- `compile_correct_partial`: what is proved of the semantic statement.
 
 1. `CompileCorrect` restricted to Fv programs — literals, symbols, `def`, `set`, `begin`,
-   `cond`, `and`, `or`, nested arbitrarily, values *and* errors, with their effects on the
-   global scope (execution half included: generator model + VM model vs reference evaluator,
+   `cond`, `and`, `or`, `newScope`, `letseq`, `let` (distinct names), nested arbitrarily, values
+   *and* errors, with their effects on every scope (execution half included: generator model + VM model vs reference evaluator,
    all sizes and nestings) — `compile_correct_on_Fv`; for the effect-free sub-fragment F0c with
    explicit fuel on both sides — `compile_correct_F0c`;
 2. the full `CompileCorrect` follows from its restriction to the programs outside Fv
    (`CompileCorrectOutsideFv`, the precise unproved remainder);
 3. the layout half for `begin`/`cond`/`and`/`or` as before (and `gen_for_layout` for loops).
 
-MISSING (held by the `eval` correspondence only): `CompileCorrectOutsideFv` — Stage D
-(`let`/`letseq`/`newScope`; builtin calls through `callExpr`: re-entrant `Run`), F1
+MISSING (held by the `eval` correspondence only): `CompileCorrectOutsideFv` — calls through
+`callExpr` (builtin calls: re-entrant `Run`; this is what keeps arithmetic out of Fv), F1
 (`for`/`break`/`continue`), F2 (closures, user calls, varargs, recursion), F3 (self tail calls,
 `map`/`apply`, lazy parameters). -/
 theorem compile_correct_partial :
